@@ -198,6 +198,92 @@ pub fn c07_overflow_39_41() {
     check_overflow::<3>();
 }
 
+// ---------------------------------------------------------------------------------------------
+// C07-H4 / C06: printing a comma-grouped value ("grouping style preserved when printed").
+// ---------------------------------------------------------------------------------------------
+
+/// Fixed-size text sink (no heap growth under the solver).
+struct Sink {
+    buf: [u8; 16],
+    n: usize,
+}
+
+impl core::fmt::Write for Sink {
+    fn write_str(&mut self, s: &str) -> core::fmt::Result {
+        let b = s.as_bytes();
+        let mut i = 0;
+        while i < b.len() {
+            if self.n >= 16 {
+                return Err(core::fmt::Error);
+            }
+            self.buf[self.n] = b[i];
+            self.n += 1;
+            i += 1;
+        }
+        Ok(())
+    }
+}
+
+/// Reference text of `(-)? m / 10^scale` with comma grouping, written from the statement: the digits of m,
+/// left-padded with zeros to at least one integral digit; the integral digits in groups of three from the
+/// right; `.` and exactly `scale` fraction digits when scale > 0.
+fn reference_grouped(m: u16, neg: bool, scale: usize) -> ([u8; 16], usize) {
+    let x = m as u32;
+    let d = [(x / 10000 % 10) as u8, (x / 1000 % 10) as u8, (x / 100 % 10) as u8, (x / 10 % 10) as u8, (x % 10) as u8];
+    let sig = if x >= 10000 { 5 } else if x >= 1000 { 4 } else if x >= 100 { 3 } else if x >= 10 { 2 } else { 1 };
+    let total = if sig > scale + 1 { sig } else { scale + 1 }; // digits printed, <= 5
+    let int_digits = total - scale;
+    let mut out = [0u8; 16];
+    let mut n = 0;
+    if neg {
+        out[n] = b'-';
+        n += 1;
+    }
+    let mut k = 0;
+    while k < total {
+        // k-th printed digit is d[5 - total + k]
+        if k == int_digits {
+            out[n] = b'.';
+            n += 1;
+        } else if k > 0 && k < int_digits && (int_digits - k) % 3 == 0 {
+            out[n] = b',';
+            n += 1;
+        }
+        out[n] = b'0' + d[5 - total + k];
+        n += 1;
+        k += 1;
+    }
+    (out, n)
+}
+
+/// Every value m / 10^scale with a 16-bit mantissa and 0..=4 decimal places carrying the comma-grouped
+/// format tag prints without panicking, as the reference text (so it reads back as the same number with the
+/// same decimal places). `0,000.01` is such a value: accepted by from_str with the grouped tag.
+#[cfg_attr(kani, kani::proof)]
+#[cfg_attr(kani, kani::unwind(8))]
+#[cfg_attr(kani, kani::stub(alloc::fmt::format, crate::verif_env::fmt_format_stub))]
+#[cfg_attr(kani, kani::stub(alloc::alloc::alloc, crate::verif_alloc::alloc_stub))]
+#[cfg_attr(kani, kani::stub(alloc::alloc::dealloc_nonnull, crate::verif_alloc::dealloc_nonnull_stub))]
+#[cfg_attr(kani, kani::stub(alloc::alloc::realloc_nonnull, crate::verif_alloc::realloc_nonnull_stub))]
+pub fn c07_display_grouped() {
+    let m = vk::u16();
+    let neg = vk::bool();
+    let scale = vk::below(5) as u32;
+    vk::note(&|| format!("grouped value {}{} / 10^{}", if neg { "-" } else { "" }, m, scale));
+    let pd = PrettyDecimal { format: Some(Format::Comma3Dot), value: Decimal::from_parts(m as u32, 0, 0, neg, scale) };
+    use core::fmt::Write as _;
+    let mut sink = Sink { buf: [0; 16], n: 0 };
+    let r = write!(sink, "{}", pd);
+    assert!(r.is_ok(), "C07: printing a grouped value failed");
+    // Decimal::from_parts normalises a negative zero to zero: there is no "-0" to print
+    let (want, wn) = reference_grouped(m, neg && m != 0, scale as usize);
+    assert!(sink.n == wn, "C07: printed text of a grouped value has the wrong length (digits or separators lost / invented)");
+    assert!(u128::from_le_bytes(sink.buf) == u128::from_le_bytes(want), "C07: printed text of a grouped value is not the number written (value, decimal places or grouping changed)");
+    vk_cover!(m < 10 && scale == 2, "value below 0.1 with two decimal places (e.g. 0,000.01)");
+    vk_cover!(m >= 10000 && scale == 1, "thousands with one decimal place");
+    core::mem::forget(pd);
+}
+
 #[cfg(all(test, not(kani)))]
 #[test]
 fn verif_replay_entry() {
@@ -205,5 +291,6 @@ fn verif_replay_entry() {
         ("c07_literal_6", c07_literal_6 as fn()),
         ("c07_literal_10", c07_literal_10 as fn()),
         ("c07_overflow_39_41", c07_overflow_39_41 as fn()),
+        ("c07_display_grouped", c07_display_grouped as fn()),
     ]);
 }
